@@ -1,9 +1,9 @@
 #!/bin/sh
-# mutq.sh : processes ids listed in /tmp/mutq.txt one after the other (confirm in its worktree, then trial against the scratch copy)
+# mutq.sh : processes ids listed in /tmp/mutq${MUT_SUFFIX:-}.txt one after the other (confirm in its worktree, then trial against the scratch copy)
 while true; do
-  id=$(head -1 /tmp/mutq.txt 2>/dev/null)
+  id=$(head -1 /tmp/mutq${MUT_SUFFIX:-}.txt 2>/dev/null)
   if [ -z "$id" ]; then sleep 20; continue; fi
-  sed -i 1d /tmp/mutq.txt
+  sed -i 1d /tmp/mutq${MUT_SUFFIX:-}.txt
   [ "$id" = "STOP" ] && exit 0
   /verif/tools/try_mutant.sh $id
   [ -f /tmp/mut_$id/out/confirm.txt ] || /verif/tools/confirm_mutant.sh $id
